@@ -205,6 +205,39 @@ def with_debug(fn):
         debug.setLogger(None)
 
 
+def _containers(obj, acc=None, depth=0):
+    """ids of all constructed objects reachable from a decoded value."""
+    acc = set() if acc is None else acc
+    if depth > 8 or not isinstance(obj, _base.ConstructedAsn1Type):
+        return acc
+    acc.add(id(obj))
+    try:
+        comps = obj.components if not isinstance(obj, univ.Choice) else [obj.getComponent()]
+    except Exception:
+        comps = []
+    for c in comps:
+        _containers(c, acc, depth + 1)
+    return acc
+
+
+def _empty_all(obj, depth=0):
+    if depth > 8 or not isinstance(obj, _base.ConstructedAsn1Type):
+        return
+    try:
+        comps = list(obj.components) if not isinstance(obj, univ.Choice) else [obj.getComponent()]
+    except Exception:
+        comps = []
+    for c in comps:
+        _empty_all(c, depth + 1)
+    try:
+        if isinstance(obj, (univ.SequenceOf, univ.SetOf)):
+            obj.append(univ.Integer(424242))
+        else:
+            obj.clear()
+    except Exception:
+        pass
+
+
 def _native(obj):
     try:
         return repr(nenc.encode(obj))
@@ -308,6 +341,26 @@ def run_case(case):
                 if snapshot(T, sch) != t0:
                     F('decode-shares', codec, 'mutating a decoded result changed the guiding type | %s' % desc[i])
                     t0 = snapshot(T, sch)
+    # ---- (2c) results of decoding WITHOUT a guiding type share no object with each other either (nor with the decoder's prototypes)
+    for i, (T, v) in enumerate(items):
+        if any(m == 'I' for t in fz.type_nodes(T) for m, _c, _n in t.get('tags', ())) or 'ANY' in ir.kinds_in(T):
+            continue
+        for codec, data in (('DER', pool.der[i]), ('BER', pool.ber[i])):
+            d1, d2 = lib.decode(codec, data), lib.decode(codec, data)
+            if not (d1.ok and d2.ok):
+                continue
+            shared = _containers(d1.value) & _containers(d2.value)
+            if shared:
+                F('decode-shares', codec + '-schemaless', 'two schemaless decodings of %s share %d container object(s) | %s' % (data.hex()[:40], len(shared), desc[i]),
+                  sig='schemaless')
+                continue
+            before = lib.encode('DER', d2.value)
+            _empty_all(d1.value)
+            after = lib.encode('DER', d2.value)
+            d3 = lib.decode(codec, data)
+            e3 = lib.encode('DER', d3.value) if d3.ok else before
+            if (before.ok, before.value) != (after.ok, after.value) or (before.ok, before.value) != (e3.ok, e3.value):
+                F('decode-shares', codec + '-schemaless', 'emptying one schemaless result changed another / a later one | %s' % desc[i], sig='schemaless')
     # ---- (2b) several values through one decoder object come out as each does alone
     for i, (T, v) in enumerate(items):
         sch = pool.sch[i]
